@@ -374,6 +374,7 @@ async def twins(root, encrypted):
     with lib.quiet():
         (src / 'a').write_bytes(lib.content(500, 500))
         keep = (await r.snapshot(paths=[src])).name                      # stays
+        same_as_keep = (await r.snapshot(paths=[src])).name              # unchanged data: every chunk shared with `keep`
         (src / 'a').write_bytes(lib.content(501, 700))
         for _ in range(2):
             names.append((await r.snapshot(paths=[src])).name)          # two snapshots of unchanged data: chunks shared by exactly these two
@@ -381,8 +382,17 @@ async def twins(root, encrypted):
         names.append((await r.snapshot(paths=[src])).name)              # distinct content
         (src / 'a').write_bytes(lib.content(503, 600))
         names.append((await r.snapshot(paths=[src])).name)              # distinct content
-        for victims in ([names[0], names[1]], [names[3], names[2]]):
-            await r.delete_snapshots(victims, confirm=False)
+        import builtins
+        for victims in ([names[0], names[1]], [names[3], names[2]], [same_as_keep]):
+            if victims == [same_as_keep]:
+                # the INTERACTIVE path (`delete` without --yes, answered y): same result as the unattended one
+                real_input, builtins.input = builtins.input, (lambda *a, **k: 'y')
+                try:
+                    await r.delete_snapshots(victims, confirm=True)
+                finally:
+                    builtins.input = real_input
+            else:
+                await r.delete_snapshots(victims, confirm=False)
             _, locs = await loaded(root, user)
             present = set(Local(root / 'repo').list_files('data/'))
             if present - set(locs):
@@ -390,7 +400,10 @@ async def twins(root, encrypted):
                                  'deleted_in_one_call': len(victims)})
             if set(locs) - present:
                 problems.append({'problem': 'delete of several snapshots in one call removed chunks a remaining snapshot references', 'n': len(set(locs) - present)})
-        await r.restore(snapshot_regex=f'^{keep}$', path=root / 'out_twins')
+        try:
+            await r.restore(snapshot_regex=f'^{keep}$', path=root / 'out_twins')
+        except Exception as e:
+            problems.append({'problem': 'the snapshot that stays cannot be restored after the deletes', 'error': f'{type(e).__name__}: {e}'[:160]})
     await r.close()
     return problems
 
@@ -638,3 +651,8 @@ def main():
 
 if __name__ == '__main__':
     main()
+    # a history step that failed inside restore can leave loader threads of the code under test waiting for ever (known finding D20):
+    # the report is out, do not wait for them
+    sys.stdout.flush()
+    sys.__stdout__.flush()
+    os._exit(0)
